@@ -78,6 +78,7 @@ type Task struct {
 	goid    uint64
 	// Local is free for the harness (e.g. current operation id).
 	Local any
+	vc    VC // happens-before clock, see hb.go
 }
 
 // Done reports whether the task has finished.
@@ -87,6 +88,7 @@ type timer struct {
 	at   time.Duration
 	seq  uint64
 	fire func()
+	vc   VC // clock of the task that armed it
 }
 
 // Sim is one simulation run.
@@ -100,6 +102,13 @@ type Sim struct {
 	timers  []*timer
 	pollers []func() bool
 	seq     uint64
+	// happens-before tracking (hb.go)
+	hbOff       bool
+	hbObj       map[any]VC
+	hbMaps      map[uintptr]*mapState
+	timerVC     VC
+	MapAccesses int
+	MapRaces    int
 
 	Steps     int
 	Switches  int
@@ -222,6 +231,17 @@ func (s *Sim) PairList() []string {
 
 func (s *Sim) newTask(name string, node int, fn func()) *Task {
 	t := &Task{ID: len(s.tasks), Name: name, Node: node, wake: make(chan struct{}, 1)}
+	if !s.hbOff {
+		// go statement: everything the parent (or the task that armed the timer) did so far is visible
+		switch {
+		case s.timerVC != nil:
+			t.vc = append(VC(nil), s.timerVC...)
+		case s.cur != nil:
+			t.vc = append(VC(nil), s.cur.vc...)
+			s.cur.tick()
+		}
+		t.tick()
+	}
 	if s.Cfg.Strategy == StratPCT {
 		t.prio = s.Cfg.PCTDepth + 1 + s.Tape.Choose(1000, "pct.prio")
 	}
@@ -536,6 +556,9 @@ func (s *Sim) GoNode(name string, node int, fn func()) *Task {
 // Join blocks until t is done.
 func (s *Sim) Join(t *Task) {
 	s.Block("join", func() bool { return t.done })
+	if !s.hbOff && s.cur != nil {
+		s.cur.vc = joinVC(s.cur.vc, t.vc)
+	}
 }
 
 // Kill removes a parked task from the simulation (crash of a simulated process). Its goroutine
@@ -617,7 +640,9 @@ func (s *Sim) Advance(d time.Duration) {
 		if t.at > s.now {
 			s.now = t.at
 		}
+		s.timerVC = t.vc
 		t.fire()
+		s.timerVC = nil
 	}
 	s.now = target
 }
@@ -642,7 +667,9 @@ func (s *Sim) fireNextTimer() bool {
 	if t.at > s.now {
 		s.now = t.at
 	}
+	s.timerVC = t.vc
 	t.fire()
+	s.timerVC = nil
 	return true
 }
 
@@ -653,6 +680,10 @@ func (s *Sim) AddTimer(d time.Duration, fire func()) *TimerH {
 		d = 0
 	}
 	t := &timer{at: s.now + d, seq: s.seq, fire: fire}
+	if !s.hbOff && s.cur != nil {
+		t.vc = append(VC{}, s.cur.vc...)
+		s.cur.tick()
+	}
 	s.timers = append(s.timers, t)
 	return &TimerH{s: s, t: t}
 }
